@@ -263,14 +263,12 @@ pub fn c12_worker(tier: &str, k: usize, n: usize, ctx: &mut Ctx) {
     }
   }
   // (iii) decoder against the reference decoder on all strings of the v3 grammar (curated spellings)
-  let strings = grammar_strings(thorough);
-  for s in &strings {
-    if !st.mine() {
-      continue;
+  for_each_grammar_string(thorough, &mut |s| {
+    if st.mine() {
+      ctx.states += 1;
+      grammar_case(ctx, s);
     }
-    ctx.states += 1;
-    grammar_case(ctx, s);
-  }
+  });
 }
 
 fn delta_case(ctx: &mut Ctx, a: Seg, b: Seg) {
@@ -342,18 +340,41 @@ fn segments(fields: &[&str], full_at_most_one: bool) -> Vec<String> {
   out
 }
 
-pub fn grammar_strings(thorough: bool) -> Vec<String> {
+/// Every string of the (curated) v3 grammar, streamed.
+pub fn for_each_grammar_string(thorough: bool, f: &mut dyn FnMut(&str)) {
   let seg_full = segments(&["A", "C", "D"], true);
-  let seg_small = segments(&FIELD_SMALL[..if thorough { 3 } else { 2 }], false);
+  // three-segment strings over a smaller segment set
+  let seg_small: Vec<String> = if thorough {
+    let mut v = segments(&["A", "C"], false);
+    v.extend(segments(&["A", "C", "D"], false).into_iter().filter(|s| s.len() == 4));
+    v.sort();
+    v.dedup();
+    v
+  } else {
+    segments(&["A", "C"], false)
+  };
   let seps = [",", ";", ";;", ",,", ";,"];
-  let mut out: Vec<String> = vec![String::new(), ";".into(), ";;;".into(), ",".into()];
+  for s in ["", ";", ";;;", ","] {
+    f(s);
+  }
+  let mut buf = String::new();
   for a in &seg_full {
-    out.push(a.clone());
-    out.push(format!(";{a}"));
-    out.push(format!("{a};"));
+    f(a);
+    buf.clear();
+    buf.push(';');
+    buf.push_str(a);
+    f(&buf);
+    buf.clear();
+    buf.push_str(a);
+    buf.push(';');
+    f(&buf);
     for sep in seps {
       for b in &seg_full {
-        out.push(format!("{a}{sep}{b}"));
+        buf.clear();
+        buf.push_str(a);
+        buf.push_str(sep);
+        buf.push_str(b);
+        f(&buf);
       }
     }
   }
@@ -362,13 +383,24 @@ pub fn grammar_strings(thorough: bool) -> Vec<String> {
       for b in &seg_small {
         for s2 in seps {
           for c in &seg_small {
-            out.push(format!("{a}{s1}{b}{s2}{c}"));
+            buf.clear();
+            buf.push_str(a);
+            buf.push_str(s1);
+            buf.push_str(b);
+            buf.push_str(s2);
+            buf.push_str(c);
+            f(&buf);
           }
         }
       }
     }
   }
-  out
+}
+
+pub fn grammar_count(thorough: bool) -> u64 {
+  let mut n = 0u64;
+  for_each_grammar_string(thorough, &mut |_| n += 1);
+  n
 }
 
 fn grammar_case(ctx: &mut Ctx, s: &str) {
@@ -408,7 +440,7 @@ pub fn c12_bounds(tier: &str) -> Value {
     "sequences": "all sorted sequences of <= 2 segments over the alphabet (line advance {0,1,3} x column boundary x original-location tuple incl. unmapped); 3 (thorough: also 4) segments over the reduced alphabet",
     "boundary_values": BOUNDARY,
     "single_field_deltas": "every delta of magnitude 0..2^20 in each of the five fields, both signs (column: positive only)",
-    "grammar_strings": grammar_strings(thorough).len(),
+    "grammar_strings": grammar_count(thorough),
     "grammar": "1-/4-/5-field segments with fields from {A,C,D} plus one extended spelling (E, gA, gC, hA, /A, ggA); separators , ; ;; ,, ;, ; up to 3 segments; strings whose running values go negative are outside the domain and skipped (counted)",
   })
 }
